@@ -56,11 +56,11 @@ Proof. apply (bigsum_mul F _ _ _ _ _ _ Rth). Qed.
 Lemma get3_tab a b c f i j k : i < a -> j < b -> k < c -> get zero (tabulate [a; b; c] f) [i; j; k] = f [i; j; k].
 Proof. intros. apply get_tabulate. simpl. tauto. Qed.
 
-(* tr_to_tensor: entry idx = trace (G_1[:, i_1, :] ... G_N[:, i_N, :]) *)
+(* tr_to_tensor_raw: entry idx = trace (G_1[:, i_1, :] ... G_N[:, i_N, :]) *)
 Theorem tr_to_tensor_spec (fa : tensor) mid (fl : tensor) n0 nsm nL r0 rL :
   tt_cores r0 (fa :: mid) (n0 :: nsm) rL -> shape fl = [rL; nL; r0] -> 0 < r0 ->
   0 < prod ((n0 :: nsm) ++ [nL]) ->
-  exists t, tr_to_tensor Op (fa :: mid ++ [fl]) = Ok t /\ shape t = (n0 :: nsm) ++ [nL] /\
+  exists t, tr_to_tensor_raw Op (fa :: mid ++ [fl]) = Ok t /\ shape t = (n0 :: nsm) ++ [nL] /\
     forall idx, inb ((n0 :: nsm) ++ [nL]) idx ->
       get zero t idx = fsumn r0 (fun a => chain ((fa :: mid) ++ [fl]) idx a a).
 Proof.
@@ -72,7 +72,7 @@ Proof.
   { clear - Hmid Hr1. induction Hmid; auto. }
   rewrite prod_snoc in Hpos. set (M := prod (n0 :: nsm)) in *.
   assert (HM : 0 < M) by nia. assert (HnL : 0 < nL) by nia.
-  unfold tr_to_tensor. rewrite last_last, removelast_last.
+  unfold tr_to_tensor_raw. rewrite last_last, removelast_last.
   change (fa :: mid ++ [fl]) with ((fa :: mid) ++ [fl]). rewrite Eds. cbn [rbind]. rewrite Ens.
   unfold shape3 at 1. rewrite Hfa. cbn [rbind]. unfold shape3 at 1. rewrite Hfl. cbn [rbind d3a d3c fst snd].
   rewrite (reshape_back fa (r0 * n0) r1) by (try lia; rewrite Hfa; simpl; lia). cbn [rbind].
